@@ -148,7 +148,7 @@ Definition clause (name : string) (ok : bool) : list string := if ok then [] els
 (* failed clauses of the property for observation o (empty list = holds) *)
 Definition holds (c : case) (o : obs) : list string :=
   let s := spec_obs c in
-  if all2 shape_eqb (o_log o) (o_log s) && rep_shape_eqb (o_rep o) (o_rep s) then
+  if all2 shape_eqb (o_log o) (o_log s) then
     clause "uri_exact" (all2 uri_eqb (o_log o) (o_log s)) ++
     clause "own_context" (all2 evctx_eqb (o_log o) (o_log s)) ++
     clause "client_address" (all2 (on_handle (fun g g' => addr_eqb (a_client g) (a_client g'))) (o_log o) (o_log s)) ++
